@@ -193,11 +193,20 @@ impl Builder {
     pub fn random_partitions(&mut self, k: usize) {
         for _ in 0..k {
             let t0 = self.r.range(self.t_us, self.sc.duration_us.saturating_sub(self.t_us).max(self.t_us + 1));
-            let len = (self.t_us as f64 * (0.3 + 4.0 * (self.r.next() % 1000) as f64 / 1000.0)) as u64;
+            let len = (self.t_us as f64 * (0.3 + 8.0 * (self.r.next() % 1000) as f64 / 1000.0)) as u64;
             let mut side = 0u64;
-            for i in 0..self.sc.n {
-                if self.r.chance(0.4) {
-                    side |= bit(i);
+            if self.r.chance(0.4) {
+                // An even split (both halves may believe they are a quorum if the arithmetic is off).
+                let mut order: Vec<usize> = (0..self.sc.n).collect();
+                self.r.shuffle(&mut order);
+                for i in order.iter().take(self.sc.n / 2) {
+                    side |= bit(*i);
+                }
+            } else {
+                for i in 0..self.sc.n {
+                    if self.r.chance(0.4) {
+                        side |= bit(i);
+                    }
                 }
             }
             if side == 0 || side == self.all_nodes() {
@@ -264,7 +273,7 @@ impl Builder {
 /// `bias` tunes it towards the shapes a property cares about.
 pub fn chaos(profile: &str, seed: u64, thorough: bool) -> Scenario {
     let mut b = Builder::new(profile, seed);
-    let sizes: &[usize] = if thorough { &[4, 4, 5, 6, 7, 7, 10] } else { &[4, 4, 5, 7] };
+    let sizes: &[usize] = if thorough { &[4, 4, 5, 6, 7, 7, 10] } else { &[4, 4, 5, 6, 7] };
     b.committee(sizes, true);
     let skew = b.r.chance(0.3);
     b.params((300, 1_200), skew);
